@@ -1,3 +1,33 @@
-From Verif Require Import Base.
-Theorem placeholder : True. Proof. exact I. Qed.
-Print Assumptions placeholder.
+(* C17 — wire frames follow the documented protocol.  The JSON field names are re-extracted from
+   go/pkg/utils/messages.go and registry.go on every run (translator bin/vlib/wiretags.py ->
+   work/C17/WireTags.v); the obligation [extracted = documented] is re-checked there, and with it
+   the theorems below apply to the code's own tags. *)
+From Coq Require Import String.
+From Verif Require Import Base Wire WireProofs.
+Open Scope string_scope.
+
+Theorem request_shape :
+  forall id fn args,
+    keys (build_request documented id fn args) = ["call"; "function"; "args"] /\
+    dlookup "call" (build_request documented id fn args) = Some (JStr id) /\
+    dlookup "function" (build_request documented id fn args) = Some (JStr fn) /\
+    exists l, dlookup "args" (build_request documented id fn args) = Some (JArr l) /\ length l = length args.
+Proof. exact request_shape_lemma. Qed.
+Print Assumptions request_shape.
+
+Theorem response_shape :
+  forall id v e,
+    keys (build_response documented id v e) = ["call"; "value"; "err"] /\
+    dlookup "call" (build_response documented id v e) = Some (JStr id) /\
+    dlookup "value" (build_response documented id v e) = Some (JPayload v) /\
+    (forall m, e = Some m -> m <> "" -> dlookup "err" (build_response documented id v e) = Some (JStr m) /\ m <> "") /\
+    (e = None -> dlookup "err" (build_response documented id v e) = Some (JStr "")).
+Proof. exact response_shape_lemma. Qed.
+Print Assumptions response_shape.
+
+Theorem shapes_follow_from_tags :
+  forall t id fn args,
+    t = documented -> keys (build_request t id fn args) = ["call"; "function"; "args"] /\
+                      (args = [] -> dlookup "args" (build_request t id fn args) = Some (JArr [])).
+Proof. exact shapes_for_extracted. Qed.
+Print Assumptions shapes_follow_from_tags.
